@@ -456,5 +456,40 @@ def rule_h(repo, res):
         for c in ast.walk(f):
             if isinstance(c, ast.Call) and dotted(c.func) == "is_end_of_stream":
                 users.append("%s:%s line %d" % (mm.rel, fname, c.lineno))
+    # ... and an absolute position obtained from tell() never decides anything by itself: it may be stored, handed on,
+    # reported, or subtracted from another position, but not compared with a constant ("are we at offset 0?") -- that is
+    # true for the first sequence of a stream only
+    absolute = []
+    n_tell = 0
+    for q in sorted(reach):
+        modn, fname = q.split(":")
+        mm = repo.modules.get(modn)
+        if mm is None or "." in fname or modn.endswith("decoder.io"):
+            continue
+        f = mm.funcs.get(fname)
+        if f is None:
+            continue
+        pos = set()
+        for a_ in ast.walk(f):
+            if isinstance(a_, ast.Assign) and len(a_.targets) == 1 and isinstance(a_.targets[0], ast.Name):
+                v = a_.value
+                base = v.value if isinstance(v, ast.Subscript) else v
+                if isinstance(base, ast.Call) and dotted(base.func) == "tell":
+                    pos.add(a_.targets[0].id)
+                    n_tell += 1
+        for c in ast.walk(f):
+            if isinstance(c, ast.Compare):
+                sides = [c.left] + list(c.comparators)
+
+                def is_pos(e):
+                    e = e.value if isinstance(e, ast.Subscript) else e
+                    return (isinstance(e, ast.Name) and e.id in pos) or (isinstance(e, ast.Call) and dotted(e.func) == "tell")
+
+                def is_const(e):
+                    return isinstance(e, ast.Constant) or (isinstance(e, ast.Tuple) and all(isinstance(x, ast.Constant) for x in e.elts))
+
+                if any(is_pos(x) for x in sides) and any(is_const(x) for x in sides):
+                    absolute.append("%s:%s `%s`" % (mm.rel, fname, short(c, 50)))
+    res.check(not absolute and n_tell >= 3, "C10.h", "position-in-stream:absolute-offsets-decide-nothing", "vc2_conformance/decoder", "a position obtained from tell() is compared with a constant (%s): the test holds for the first sequence of a stream only, so a later sequence is checked differently from the same sequence on its own" % "; ".join(absolute), by="%d position locals; used in differences, stores and reports only" % n_tell)
     res.check(not users, "C10.h", "position-in-stream:only-parse_stream-asks", "vc2_conformance/decoder", "is_end_of_stream() is consulted beneath parse_sequence (%s): what is checked for a sequence then depends on whether another sequence follows it" % "; ".join(users), by="is_end_of_stream is called by parse_stream's loop only")
 
